@@ -271,6 +271,7 @@ func fieldOf(what string) string {
 }
 
 func checkC11(c *mc.Ctx) {
+	checkSpecConstants(c, "packet", specConstsPacket())
 	c.Ev.Level = "exploration"
 	c.Ev.Rule = "bounded-exhaustive codec input space: all header values (2^13 PIDs x 16 counters x 4 scrambling values x 8 flag sets x 3 adaptation_field_control values); all 144 structural adaptation-field shapes x 8 indicator sets x (defaults, every field over its boundary alphabet alone, every pair of fields over 3-value alphabets, every admissible stuffing length); each model packet is reference-encoded -> parsed by the library, written by the library -> compared with the reference bytes, and parsed-then-written; distinct_nontrivial = distinct model packets"
 	c.Ev.Assumptions = append(c.Ev.Assumptions, "struct inputs are consistent (pointer present iff flag set, TransportPrivateDataLength == len(TransportPrivateData))",
